@@ -117,6 +117,9 @@ func (c *Core) onEnter(s *Sim, e *simrt.Event) {
 	if q.entered > 1 && !q.Corrupt {
 		s.Violate("C03", "once", "handled-twice op="+op, fmt.Sprintf("m=%d entered %d handlers (routes %d then %d)", e.Msg, q.entered, q.route, e.A))
 	}
+	if op == "unbind" && !q.Corrupt && c.Cfg.Routes[e.A].Kind != "unbind" {
+		s.Violate("C10", "unbind-once", "unbind-delivered-to-route="+c.Cfg.Routes[e.A].Kind, fmt.Sprintf("m=%d: the Unbind was handed to the %s route", e.Msg, c.Cfg.Routes[e.A].Kind))
+	}
 	if q.BehindUnbind {
 		s.Violate("C10", "no-dispatch", "op="+op, fmt.Sprintf("m=%d at position %d on %s follows an Unbind and was dispatched to route %d", e.Msg, q.Pos, cl.name(), e.A))
 	}
@@ -255,7 +258,9 @@ func (c *Core) checkConcurrent(s *Sim) {
 
 // checkBoth is evaluated at the step at which Stop and Run have both returned (C12).
 func (c *Core) checkBoth(s *Sim) {
-	if !c.runRet || c.stopCalls == 0 || c.stopRets < c.stopCalls || c.bothStep != 0 {
+	// "once Stop and Run have both returned": every Stop call that has returned
+	// counts, also a second one that returns while the first is still waiting
+	if !c.runRet || c.stopRets == 0 {
 		return
 	}
 	c.bothStep = s.Steps
@@ -265,6 +270,9 @@ func (c *Core) checkBoth(s *Sim) {
 	when := "stop-during-run"
 	if c.Cfg.StopMode == 2 {
 		when = "stop-at-start"
+	}
+	if c.stopRets < c.stopCalls {
+		when += " another-stop-still-waiting"
 	}
 	// connection goroutines are the actors spawned directly by Run
 	spawned := 0
@@ -322,6 +330,12 @@ func (c *Core) onReady(s *Sim, e *simrt.Event) {
 		return
 	}
 	s.Probe("C17-ready-observed-true")
+	if c.Cfg.Malformed {
+		s.Violate("C17", "never-ready", "ready-true-for-malformed-address", fmt.Sprintf("Ready()==true although Run was given the malformed address %q", c.Cfg.Addr))
+	}
+	if c.Cfg.BusyPort {
+		s.Violate("C17", "never-ready", fmt.Sprintf("ready-true-for-busy-port tls-mode=%d", c.Cfg.TLSMode), "Ready()==true although the port was already bound when Run started")
+	}
 	if c.runRet && c.runErr != "" {
 		s.Violate("C17", "never-ready", "ready-true-after-run-failed", "Run returned "+c.runErr+" and Ready() reports true")
 	}
@@ -398,6 +412,14 @@ func (c *Core) Finish(s *Sim) {
 	cfg := c.Cfg
 	if s.StepCap {
 		return // inconclusive: no verdicts from an unfinished run
+	}
+	// ---- C17: Run must fail on an address it cannot listen on
+	if (cfg.Malformed || cfg.BusyPort) && c.runStarted && !(c.runRet && c.runErr != "") && cfg.StopMode != 2 && c.stopCalls == 0 {
+		why := "malformed-address"
+		if cfg.BusyPort {
+			why = fmt.Sprintf("busy-port tls-mode=%d", cfg.TLSMode)
+		}
+		s.Violate("C17", "never-ready", "run-did-not-fail "+why, fmt.Sprintf("Run(%q) has not returned an error (returned=%v err=%q)", cfg.Addr, c.runRet, c.runErr))
 	}
 	// ---- C11
 	if c.stopCalls > 0 {
@@ -808,7 +830,7 @@ func (c *Core) finishStartTLS(s *Sim, cl *Client) {
 			st = q
 		}
 	}
-	if st == nil || c.stopCalls > 0 || cl.ended == "reset" || cl.ep.IsReset() || cl.disturbed || c.Cfg.ReadTimeout != 0 || c.Cfg.WriteTimeout != 0 {
+	if st == nil || cl.ended == "reset" || cl.ep.IsReset() || cl.disturbed || c.Cfg.ReadTimeout != 0 || c.Cfg.WriteTimeout != 0 {
 		return
 	}
 	s.Probe("C13-starttls-session")
@@ -816,11 +838,14 @@ func (c *Core) finishStartTLS(s *Sim, cl *Client) {
 	if st.entered == 0 {
 		return // C03/C01 report an undelivered request
 	}
+	if (!cl.srvTLSOK || !cl.hsDone) && c.stopCalls > 0 {
+		return // the upgrade was cut short by Stop
+	}
 	if !cl.srvTLSOK || !cl.hsDone {
 		s.Violate("C13", "session", "handshake-failed "+timing, fmt.Sprintf("%s: conforming StartTLS client; server side: %q, client side: %q", cl.name(), cl.srvTLS, cl.hsErr))
 		return
 	}
-	if cl.ended == "" && !c.Cfg.Lean {
+	if cl.ended == "" && !c.Cfg.Lean && c.stopCalls == 0 {
 		for _, q := range cl.reqs {
 			if q.Pos > st.Pos && !q.BehindUnbind && q.Rec.Supported() && q.Rec.Op != "unbind" && c.cleanBefore(q) && !c.answered(q) {
 				s.Violate("C13", "tunnel", "request-in-tunnel-unanswered "+timing, fmt.Sprintf("%s: m=%d (%s) sent inside the tunnel, %d of %d responses received", cl.name(), q.Rec.MsgID, q.Rec.Op, len(q.got), len(q.Script.Resps)))
